@@ -678,3 +678,48 @@ def r_key_equality(ctx):
                                   kn.split('::')[-1], an.split('::')[-1], fl[0], ', '.join(sorted(missing)) or '?'))
     ctx.check(n_fields >= 5, 'R11.d', 'key-equality/keyed-stores-found', None, '-', '%d keyed stores (map / set fields) inspected' % n_fields,
               'anchor missing: expected at least 5 keyed stores (NoDupFringe.states, Mdd.next_l, Pooled.pool, SimpleCache.thresholds_by_layer, SimpleDominanceChecker.data), found %d' % n_fields)
+
+
+def r_clone_fidelity(ctx):
+    """R11.h / R02.7 — a copy is a copy: every hand-written `Clone` impl of a crate-local struct that the library itself clones (the
+    sub-problems copied out of the duplicate-free fringe, thresholds, edges, nodes, flags ...) builds its result field by field from the SAME
+    field of `self` (derived impls do so by construction). A `clone` that recomputes a field (`depth: self.path.len()`) hands out a
+    different sub-problem than the one that was stored: the fringe then forgets the wrong key, the solver continues from the wrong depth."""
+    F = ctx.F
+    n = 0
+    for im in F.impls:
+        if not (im.get('trait') or '').endswith('clone::Clone') or not im.get('self_adt'):
+            continue
+        adt = im['self_adt']
+        if '::mdd::clean::Mdd' in adt or '::mdd::pooled::Pooled' in adt:
+            continue                    # the diagrams: R20.d
+        info = F.adts.get(adt)
+        if not info or info.get('kind') != 'struct':
+            continue
+        n += 1
+        short_ = adt.split('::')[-1]
+        if im.get('auto_derived'):
+            continue
+        cb_ = [b_ for b_ in F.bodies.values() if b_.fn_name == 'clone' and b_.impl_self_adt == adt and (b_.impl_trait or '').endswith('Clone') and b_.kind != 'closure']
+        good, missing_ = False, []
+        if cb_:
+            ctx.analysed_bodies.add(cb_[0].name)
+            ag_ = aggr_assigns(cb_[0], adt)
+            rt_ = None
+            if ag_:
+                rt_ = cb_[0].origin.rvalue(ag_[0][2]['rv'], (ag_[0][0], ag_[0][1]))
+            if isinstance(rt_, tuple) and rt_ and rt_[0] == 'aggr':
+                own = lambda x, f_: M.is_field(x, f_) and M.is_param(M.field_base(x), index=0)
+                missing_ = [f_ for (f_, t_) in rt_[3] if not (own(t_, f_) or (isinstance(t_, tuple) and t_ and t_[0] == 'call' and t_[1].split('::')[-1] in ('clone', 'to_vec', 'to_owned', 'into') and t_[2] and own(t_[2][0], f_)))]
+                good = not missing_
+            elif len(ag_) == 0:
+                # `*self` for a Copy type
+                rets = cb_[0].return_blocks()
+                rt_ = cb_[0].origin.place({'l': 0, 'p': []}, cb_[0].term_point(rets[0])) if rets else None
+                good = M.is_param(rt_, index=0)
+        rule = 'R11.h' if short_ in ('SubProblem', 'Decision', 'Variable') else 'R18.e' if short_ in ('Threshold',) else 'R02.7'
+        ctx.check(good, rule, 'clone-preserves-every-field/' + short_, cb_[0] if cb_ else None, cb_[0].loc(0) if cb_ else '-',
+                  'the hand-written Clone of %s copies every field from the same field of self' % short_,
+                  'the hand-written Clone of %s does not copy field(s) %s from the same field of self: a cloned %s is not the value that was stored' % (short_, ', '.join(missing_) or '?', short_))
+    ctx.check(n >= 10, 'R11.h', 'clone-preserves-every-field/types-found', None, '-', '%d Clone impls of crate-local structs inspected (derived ones copy field by field by construction)' % n,
+              'anchor missing: expected at least 10 Clone impls of crate-local structs, found %d' % n)
